@@ -40,15 +40,20 @@ type Op struct {
 	K  string `json:"k"`            // end | add | cancel | arm | release | race
 	C  []int  `json:"c,omitempty"`  // end: contexts to end back-to-back; add: [ctx]; race: [ctx to end, ctx to add (or -1 = Cancel)]
 	At string `json:"at,omitempty"` // arm: afterWait | beforeCancel
+	// gated family (gate.go): gadd = Add(C[0]) parked inside the (Nth+1)-th method call the pool
+	// makes on a context during that Add; In = what happens meanwhile (end | size | cancel | add)
+	Nth int  `json:"nth,omitempty"`
+	In  []Op `json:"in,omitempty"`
 }
 
 type Case struct {
-	Family string `json:"family"`
-	Init   []int  `json:"init"`
-	Ended  []int  `json:"ended"`            // contexts cancelled before NewPool
-	PreArm string `json:"prearm,omitempty"` // trap armed before NewPool
-	Ops    []Op   `json:"ops"`
-	Seed   uint64 `json:"seed,omitempty"` // storm: seed of the goroutines' yields
+	Family string    `json:"family"`
+	Init   []int     `json:"init"`
+	Ended  []int     `json:"ended"`            // contexts cancelled before NewPool
+	PreArm string    `json:"prearm,omitempty"` // trap armed before NewPool
+	Ops    []Op      `json:"ops"`
+	Seed   uint64    `json:"seed,omitempty"` // storm: seed of the goroutines' yields
+	Gate   *GateSpec `json:"gate,omitempty"` // gated family: NewPool itself parked inside one of its call-outs
 }
 
 func (c *Case) key() string {
@@ -57,7 +62,8 @@ func (c *Case) key() string {
 		P    string
 		O    []Op
 		S    uint64
-	}{c.Init, c.Ended, c.PreArm, c.Ops, c.Seed})
+		G    *GateSpec
+	}{c.Init, c.Ended, c.PreArm, c.Ops, c.Seed, c.Gate})
 	return string(b)
 }
 
@@ -484,6 +490,9 @@ func (s *scenario) doCancel() {
 func runCase(c *Case) *outcome {
 	if c.Family == "storm" {
 		return runStorm(c)
+	}
+	if strings.HasPrefix(c.Family, "gate") {
+		return runGated(c)
 	}
 	out := &outcome{}
 	s := &scenario{c: c, out: out, ctxs: map[int]*ctxPair{}, member: map[int]bool{}, maybe: map[int]bool{}, offered: map[int]bool{}}
@@ -1203,6 +1212,8 @@ func genCases(tier string, seed uint64, search bool) []*Case {
 		}
 		cs = append(cs, &Case{Family: "random", Init: init, Ended: dedup(ended), PreArm: pre, Ops: ops})
 	}
+	// F7: gated contexts (gate.go)
+	cs = append(cs, genGated(tier, seed, search)...)
 	return cs
 }
 
